@@ -1449,6 +1449,9 @@ class MPO(MPSGeometry):
                 IdR = self.get_IdR(j)
                 if IdR is None:
                     IdR = -1  # not equal to positive index
+                else:
+                    # negative indices count from the end (e.g. `__add__` stores -1)
+                    IdR = IdR % self.get_W(j).get_leg('wR').ind_len
                 site_j = self.sites[j % L]
                 W = self.get_W(j)
                 W = W.transpose(['wL', 'wR', 'p', 'p*'])
